@@ -77,7 +77,7 @@ def cc_skeletons():
     ]
 
 
-TARGET_SETS = [None, frozenset({"x"}), frozenset({"x", "y"}), frozenset({"y", "z"})]
+TARGET_SETS = [None, frozenset({"x"}), frozenset({"x", "y"}), frozenset({"y", "z"}), frozenset()]
 
 
 def check_cc(idx, tset_i, tier, twin=False):
@@ -87,8 +87,9 @@ def check_cc(idx, tset_i, tier, twin=False):
     sym.set_family("real")
     name, build, aff = cc_skeletons()[idx]
     targets = TARGET_SETS[tset_i]
-    text = f"collector `{name}` targets={sorted(targets) if targets else None}"
-    res = ItemResult(item=text, sample={"expression": name, "targets": sorted(targets) if targets else None})
+    tshow = None if targets is None else sorted(targets)
+    text = f"collector `{name}` targets={tshow}"
+    res = ItemResult(item=text, sample={"expression": name, "targets": tshow})
     cs = [sym.SymInt(z3.Int(f"c{i}")) for i in range(3)]
     env = {n: sym.var(n, "real")[0] for n in ("x", "y", "z", "i")}
     env["a"] = sym.UFArray("a", "real")
